@@ -23,7 +23,8 @@ pub fn base(rng: &mut Rng) -> String {
         (0..n).map(|_| *rng.pick(&['a', 'b', 'c', '-', '1', 'x', 'é', '+', '.'])).collect()
     };
     // rare values: e.g. a character whose code point ends in the byte of '{' or '<'
-    sprinkle(rng, &b, 12)
+    let b = sprinkle(rng, &b, 12);
+    crate::dict::dictify(rng, &b, 25)
 }
 
 fn near_base(rng: &mut Rng, b: &str) -> String {
@@ -185,7 +186,13 @@ fn brace_scale(rng: &mut Rng) -> (String, Vec<String>) {
         }
         2 => {
             // 2^k expansions; the matching one is among the last
-            let k = *rng.pick(&[5usize, 8, 12, 13]);
+            let k = *rng.pick(&[5usize, 8, 12, 13, 17]);
+            if k == 17 {
+                // 2^17 expansions (more than a 16-bit counter or a 65 536-entry budget holds): only
+                // names that match, the last expansion and the first (a name that matches nothing
+                // makes the specification try all 131 072)
+                return (format!("{}-1.0", "{a,b}".repeat(k)), vec![format!("{}-1.0", "b".repeat(k)), format!("{}-1.0", "a".repeat(k))]);
+            }
             let name: String = (0..k).map(|i| if i + 1 == k || rng.chance(1, 2) { 'b' } else { 'a' }).collect();
             (format!("{}-[0-9]*", "{a,b}".repeat(k)), vec![format!("{}-1.0", name), format!("{}c-1.0", &name[1..]), format!("{}-x", name)])
         }
@@ -238,12 +245,28 @@ pub fn plain(rng: &mut Rng) -> (String, Vec<String>) {
 }
 
 pub fn any(rng: &mut Rng) -> (String, Vec<String>) {
-    match rng.below(10) {
+    let pn = match rng.below(10) {
         0..=2 => dewey(rng),
         3..=4 => glob(rng),
         5..=8 => brace(rng),
         _ => plain(rng),
+    };
+    tail(rng, pn)
+}
+
+/// now and then a literal of the code under test (or a line end, a blank ...) at the end of the
+/// pattern, and the names with and without it
+pub fn tail(rng: &mut Rng, pn: (String, Vec<String>)) -> (String, Vec<String>) {
+    let (p, mut names) = pn;
+    if rng.chance(1, 30) {
+        let t = crate::dict::token(rng);
+        let with: Vec<String> = names.iter().take(3).map(|n| format!("{}{}", n, t)).collect();
+        names.extend(with);
+        names.push(p.clone());
+        names.push(format!("{}{}", p, t));
+        return (format!("{}{}", p, t), names);
     }
+    (p, names)
 }
 
 /// related patterns (same / near-miss bases, different bounds) and names for them, with
@@ -274,5 +297,16 @@ pub fn matrix(rng: &mut Rng) -> (Vec<String>, Vec<String>) {
     }
     // a shuffle so that equal names are not always adjacent
     for i in (1..ns.len()).rev() { let j = rng.below(i + 1); ns.swap(i, j); }
+    // twins: two names, next to each other, whose versions differ only by a character that Unicode
+    // case folding identifies with an ASCII letter (KELVIN SIGN / k, dotted capital I / i + dot
+    // above) or by the case of a letter - the rule ignores the first and folds only ASCII
+    if rng.chance(1, 5) {
+        let v = rng.pick(&vs).clone();
+        let (x, y) = *rng.pick(&[("k", "\u{212a}"), ("K", "\u{212a}"), ("i\u{307}", "\u{130}"), ("a", "A"), ("s", "\u{17f}"), ("ss", "\u{df}")]);
+        let (x, y) = if rng.chance(1, 2) { (x, y) } else { (y, x) };
+        let at = rng.below(ns.len() + 1);
+        ns.insert(at, format!("{}-{}{}", b, v, y));
+        ns.insert(at, format!("{}-{}{}", b, v, x));
+    }
     (ps, ns)
 }
